@@ -63,7 +63,28 @@ func TestC29(t *testing.T) {
 			}
 			ranges = append(ranges, rg{a, b})
 		}
-		cfg := map[string]any{"Version": fmt.Sprint(n), "Config": map[string]any{"t": ranges}}
+		// adjacent-block shape: a range ending at x.y.z.255 plus a disjoint one further inside
+		// the next /24, with the peer in the gap between them (or just outside)
+		peerOverride := ""
+		if rapid.IntRange(0, 3).Draw(rt, "adjacent-shape") == 0 {
+			b := rapid.SampledFrom([]string{"10.0.0", "10.0.255", "30.1.1", "127.0.0"}).Draw(rt, "block")
+			var o [3]int
+			fmt.Sscanf(b, "%d.%d.%d", &o[0], &o[1], &o[2])
+			next := fmt.Sprintf("%d.%d.%d", o[0], o[1], o[2]+1)
+			if o[2] == 255 {
+				next = fmt.Sprintf("%d.%d.0", o[0], o[1]+1)
+			}
+			lo := rapid.IntRange(50, 150).Draw(rt, "gap-lo")
+			ranges = append(ranges, rg{b + ".0", b + ".255"}, rg{fmt.Sprintf("%s.%d", next, lo), next + ".200"})
+			peerOverride = fmt.Sprintf("%s.%d", next, rapid.SampledFrom([]int{0, 1, lo - 1, lo, 200, 201, 255}).Draw(rt, "gap-peer"))
+			nr = len(ranges)
+		}
+		// operators may push a new table under an unchanged Version string
+		version := fmt.Sprint(n)
+		if rapid.IntRange(0, 3).Draw(rt, "same-version") == 0 {
+			version = "unchanged"
+		}
+		cfg := map[string]any{"Version": version, "Config": map[string]any{"t": ranges}}
 		if nr == 0 {
 			cfg["Config"] = map[string]any{}
 		}
@@ -74,6 +95,9 @@ func TestC29(t *testing.T) {
 			rt.Fatalf("rig: trust table reload failed for %s: %v", bs, err)
 		}
 		peerIP := rapid.SampledFrom(c29Universe).Draw(rt, "peer")
+		if peerOverride != "" {
+			peerIP = peerOverride
+		}
 		peerPort := rapid.IntRange(1024, 65535).Draw(rt, "peerport")
 		peer := &net.TCPAddr{IP: net.ParseIP(peerIP), Port: peerPort}
 		trusted := false
